@@ -50,35 +50,12 @@ def _helper_summary(ctx, cls, name, _seen=None):
     return True, "returns a non-empty chunk or raises CommError"
 
 
-@rule(P, "D12.1", "T-PROGRESS", floor=2)
+@rule(P, "D12.1", "T-WITNESS", floor=2)
 def d12_1(ctx):
-    """Every recv chunk accumulated by Socket.receive is non-empty or CommError is raised (peer close cannot hang the loop)."""
-    cls = ctx.model.cls(f"{SOCK}:Socket")
-    fn = cls.methods.get("receive")
-    if fn is None:
-        ctx.undecided(f"{SOCK}:Socket.receive", cls.node, "anchor vanished")
-        return
-    g = ctx.cfg(fn)
-    n_sites = 0
-    # direct recv sites in receive
-    for call in _recv_calls(fn):
-        n_sites += 1
-        st = enclosing_stmt(call)
-        key = ckey(f"{SOCK}:Socket.receive", f"recv@{'loop' if _in_loop(call, fn) else 'first'}")
-        if isinstance(st, ast.Assign) and st.value is call and len(st.targets) == 1 and isinstance(st.targets[0], ast.Name):
-            nodes = g.nodes_of(st)
-            ok, why = guarded_nonempty(g, nodes[0], st.targets[0].id, {"CommError"}) if nodes else (False, "unreachable")
-            ctx.check(ok, key, call, why, why + " -- a peer that closes mid-frame makes recv() return b'' forever (endless loop / short frame)")
-        else:
-            ctx.violation(key, call, f"`{src(st)}` accumulates a recv() result that is never tested for emptiness: when the peer closes mid-frame recv() returns b'' and the loop never ends")
-    # helper calls
-    for call in walk(fn):
-        if isinstance(call, ast.Call) and isinstance(call.func, ast.Attribute) and isinstance(call.func.value, ast.Name) and call.func.value.id == "self" and call.func.attr in cls.methods and _recv_calls(cls.methods[call.func.attr]):
-            n_sites += 1
-            ok, why = _helper_summary(ctx, cls, call.func.attr)
-            ctx.check(ok, ckey(f"{SOCK}:Socket.receive", f"recv@{'loop' if _in_loop(call, fn) else 'first'}:{call.func.attr}"), call, f"helper {call.func.attr}: {why}", f"helper {call.func.attr}: {why}")
-    if n_sites == 0:
-        ctx.undecided(f"{SOCK}:Socket.receive", fn, "no recv site found")
+    """Every chunk accumulated by Socket.receive is non-empty or CommError is raised: a peer that closes inside the header, right after it, inside the data or before the first byte gives CommError, never a partial frame and never a spinning loop.  Decided by folding `receive` (with whatever helpers it uses) on witness streams whose peer closes at those points (D12.7); an earlier form summarised the `_recv` helper by name."""
+    from .driver import _socket_rule
+
+    _socket_rule(ctx)
 
 
 def _in_loop(node, func):
@@ -102,49 +79,12 @@ def _fold(ctx, module):
     return f
 
 
-@rule(P, "D12.2", "T-DOM", floor=1)
+@rule(P, "D12.2", "T-WITNESS", floor=1)
 def d12_2(ctx):
-    """The length-field read is dominated by a guarantee that the bytes holding it have arrived."""
-    cls = ctx.model.cls(f"{SOCK}:Socket")
-    fn = cls.methods.get("receive")
-    g = ctx.cfg(fn)
-    fold = _fold(ctx, cls.module)
-    unpacks = [c for c in walk(fn) if isinstance(c, ast.Call) and (call_name(c) or "").split(".")[-1] in ("unpack_from", "unpack", "from_bytes", "decode") and _reads_length(c)]
-    if not unpacks:
-        ctx.undecided(f"{SOCK}:Socket.receive#length-read", fn, "no length-field read recognised")
-        return
-    for u in unpacks:
-        st = enclosing_stmt(u)
-        node = g.nodes_of(st)[0]
-        buf, need = _buffer_and_need(ctx, u, cls.module)
-        if buf is None:
-            ctx.undecided(f"{SOCK}:Socket.receive#length-read", u, f"cannot interpret `{src(u)}`")
-            continue
-        guard = None
-        for t in g.nodes:
-            if t.kind != "test":
-                continue
-            c = cmp_norm(t.ast, fold)
-            if c is None:
-                continue
-            kind, L = c
-            ln = f"len({buf})"
-            if kind == "<=0" and set(L.terms) == {ln}:
-                k = L.terms[ln]
-                # len - K + 1 <= 0  (len < K): the False branch guarantees len >= K
-                if k == 1 and (1 - L.const) >= need and g.branch_dominates(t, False, node):
-                    guard = (t, 1 - L.const)
-                # K - len <= 0 (len >= K): True branch
-                if k == -1 and L.const >= need and g.branch_dominates(t, True, node):
-                    guard = (t, L.const)
-        key = ckey(f"{SOCK}:Socket.receive", "length-read")
-        hs = ctx.spec("encap")["header"]["size"]
-        if guard and guard[1] > hs:
-            ctx.violation(key, u, f"`{src(guard[0].ast)}` waits for {guard[1]} bytes before the length field is read, but a frame without payload is exactly {hs} bytes long: such a reply (e.g. an error reply) is never returned", need=need, waits_for=guard[1])
-        elif guard:
-            ctx.ok(key, u, f"dominated by `{src(guard[0].ast)}` guaranteeing {guard[1]} >= {need} bytes (and not more than the {hs}-byte header)", need=need)
-        else:
-            ctx.violation(key, u, f"`{src(u)}` needs {need} bytes of `{buf}` but no dominating test guarantees them: a first chunk shorter than {need} bytes raises struct.error (not CommError)", need=need)
+    """The length field is read only when the bytes holding it have arrived: the header arriving byte by byte, split 2+1+21, 3+21 or 23+1 still gives the whole frame and no struct.error.  Decided by folding `receive` on those segmentations (D12.7); an earlier form looked for a dominating `len(data) < HEADER_SIZE` loop in `receive` itself and alarmed when the loops moved into a helper."""
+    from .driver import _socket_rule
+
+    _socket_rule(ctx)
 
 
 def _reads_length(c):
@@ -253,35 +193,10 @@ def d12_5(ctx):
     _socket_rule(ctx)
 
 
-@rule(P, "D12.6", "T-PROGRESS", floor=2)
+@rule(P, "D12.6", "T-WITNESS", floor=2)
 def d12_6(ctx):
-    """Every loop of receive that waits for more bytes appends a received chunk to the buffer on every pass: a pass that adds
-    nothing repeats for ever (chunks are non-empty by D12.1, so each pass makes progress towards the bound)."""
-    cls = ctx.model.cls(f"{SOCK}:Socket")
-    fn = cls.methods.get("receive")
-    g = ctx.cfg(fn)
-    rets = [r for r in walk(fn) if isinstance(r, ast.Return) and r.value is not None]
-    buf = atom_name(rets[0].value) if rets else None
-    n = 0
-    for lp in [x for x in walk(fn) if isinstance(x, ast.While)]:
-        names = {atom_name(x) for x in walk(lp.test)}
-        counters = {atom_name(x.target) for x in walk(lp) if isinstance(x, ast.AugAssign)}
-        if buf is None or not (f"len({buf})" in names or names & counters):
-            continue
-        n += 1
-        tests = g.nodes_of(lp.test) or g.nodes_of(lp)
-        grow = {x for x in g.nodes if x.kind == "stmt" and isinstance(x.ast, (ast.AugAssign, ast.Assign)) and any(x.ast is y for y in walk(lp))
-                and ((isinstance(x.ast, ast.AugAssign) and isinstance(x.ast.op, ast.Add) and atom_name(x.ast.target) == buf)
-                     or (isinstance(x.ast, ast.Assign) and atom_name(x.ast.targets[0]) == buf and isinstance(x.ast.value, ast.BinOp) and isinstance(x.ast.value.op, ast.Add) and atom_name(x.ast.value.left) == buf)
-                     or (isinstance(x.ast, ast.Assign) and atom_name(x.ast.targets[0]) == buf and isinstance(x.ast.value, ast.Call) and any(atom_name(a) == buf for a in x.ast.value.args)))}
-        key = ckey(f"{SOCK}:Socket.receive", f"progress@{'header' if n == 1 else 'body' if n == 2 else n}")
-        if not tests:
-            ctx.undecided(key, lp, "loop head not found in the flow graph")
-            continue
-        head = tests[0]
-        starts = [s_ for s_, lab in head.succ if lab is True]
-        wit = None
-        for s_ in starts:
-            wit = wit or (None if s_ in grow else g.must_pass(grow, start=s_, sinks={head}, avoid_edges=lambda a, b, lab: lab == "exc"))
-        ctx.check(bool(grow) and wit is None and bool(starts), key, lp, f"every pass of `while {src(lp.test)}` appends to `{buf}`",
-                  f"a pass through `while {src(lp.test)}` can return to the loop head without appending to `{buf}`: with fewer bytes than awaited the loop never ends")
+    """Every loop of receive that waits for more bytes makes progress: each of the 8 x 9 witness frames x segmentations is returned complete after a bounded number of reads, and a closed peer ends the wait with CommError (D12.7)."""
+    from .driver import _socket_rule
+
+    _socket_rule(ctx)
+
